@@ -4,10 +4,13 @@ import (
 	"fmt"
 	"os"
 	"path/filepath"
+	"sort"
 	"testing"
 	"time"
 
 	"github.com/spikeekips/mitum/base"
+	"github.com/spikeekips/mitum/isaac"
+	"github.com/spikeekips/mitum/util"
 	"verifharness/c19/dbrig"
 	"verifharness/vlib"
 )
@@ -18,6 +21,7 @@ type witness struct {
 	Script     []string
 	Temps      string
 	Blocks     int
+	Repeated   map[string][]string // height -> setters called more than once for that block
 	Mismatches []dbrig.Mismatch
 }
 
@@ -30,12 +34,43 @@ type run struct {
 	chain  *dbrig.Chain
 	pool   *dbrig.PoolContent
 	script []string
+
+	othernode base.LocalNode              // a second node which signs block maps
+	hist      map[base.Height]*heightInfo // write history of the blocks in the store
+	lasthist  string                      // fingerprint of the newest block's write history
+	fullperm  bool                        // read the permanent database over all keys and hashes too
 }
 
 func (s *run) log(format string, a ...any) { s.script = append(s.script, fmt.Sprintf(format, a...)) }
 
+// readAll is the full read set through the Center (every accessor, objects
+// and *Bytes, plus signer and signature of every block map object), the read
+// set of the permanent database taken directly (Last* accessors, block maps and
+// suffrage proofs of every height; thorough tier: every key and hash too) and
+// the pool reads.
 func (s *run) readAll() dbrig.ReadSet {
 	rs := s.st.Read(s.gen.U)
+	readSigns(rs, "", dbrig.DatabaseReader(s.st.Center), s.gen.U.MaxHeight)
+
+	pu := s.gen.U
+	if !s.fullperm {
+		pu = &dbrig.Universe{
+			Keys:         map[string]struct{}{isaac.SuffrageStateKey: {}, isaac.NetworkPolicyStateKey: {}},
+			InStateOps:   map[string]util.Hash{},
+			KnownOps:     map[string]util.Hash{},
+			MaxHeight:    s.gen.U.MaxHeight,
+			MaxSufHeight: s.gen.U.MaxSufHeight,
+		}
+	}
+
+	pr := dbrig.PermanentReader(s.st.Perm)
+
+	for q, a := range dbrig.ReadAll(s.env, pr, pu) {
+		rs["perm."+q] = a
+	}
+
+	readSigns(rs, "perm.", pr, s.gen.U.MaxHeight)
+
 	for q, a := range dbrig.ReadPool(s.env, s.st.Pool, s.pool, s.gen.U.MaxHeight) {
 		rs[q] = a
 	}
@@ -43,12 +78,29 @@ func (s *run) readAll() dbrig.ReadSet {
 	return rs
 }
 
+func (s *run) repeatedByHeight() map[string][]string {
+	m := map[string][]string{}
+
+	for h, info := range s.hist {
+		for k := range info.repeated {
+			m[fmt.Sprintf("%d", h)] = append(m[fmt.Sprintf("%d", h)], k)
+		}
+
+		sort.Strings(m[fmt.Sprintf("%d", h)])
+	}
+
+	return m
+}
+
 // reopenCheck: the full read set (objects and raw bytes, database and pool)
 // immediately before close and immediately after reopen must be equal.
 func (s *run) reopenCheck(step string) bool {
 	r := s.r
 	temps := s.st.Temps()
-	w := witness{Chain: s.idx, Config: s.st.Cfg, Script: append([]string{}, s.script...), Temps: dbrig.HeightsString(temps), Blocks: len(s.chain.Blocks)}
+	w := witness{
+		Chain: s.idx, Config: s.st.Cfg, Script: append([]string{}, s.script...), Temps: dbrig.HeightsString(temps),
+		Blocks: len(s.chain.Blocks), Repeated: s.repeatedByHeight(),
+	}
 
 	var before, after dbrig.ReadSet
 
@@ -87,7 +139,12 @@ func (s *run) reopenCheck(step string) bool {
 		}
 	}
 
-	r.Case(fmt.Sprintf("%s/temps=%d/perm=%d/proofinperm=%v/pool=%d", step, len(temps), permblocks, lastproofinperm, len(s.pool.Ops)))
+	if s.anyRepeated() {
+		r.Count("reopen_points_with_repeated_setters_in_store", 1)
+	}
+
+	r.Case(fmt.Sprintf("%s/temps=%d/perm=%d/proofinperm=%v/pool=%d/newest-block-written=%s",
+		step, len(temps), permblocks, lastproofinperm, len(s.pool.Ops), s.lasthist))
 
 	ms := dbrig.DiffExact(before, after)
 	if len(ms) < 1 {
@@ -97,7 +154,7 @@ func (s *run) reopenCheck(step string) bool {
 	groups := map[string][]dbrig.Mismatch{}
 
 	for _, m := range ms {
-		sig := "reopen:" + dbrig.Kind(m.Query) + ":" + m.Class
+		sig := "reopen:" + dbrig.Kind(m.Query) + ":" + m.Class + s.historyOf(m.Query, before[m.Query], after[m.Query])
 		groups[sig] = append(groups[sig], m)
 	}
 
@@ -108,6 +165,49 @@ func (s *run) reopenCheck(step string) bool {
 	}
 
 	return true
+}
+
+func countHistory(r *vlib.Run, h *history, kept string) {
+	mode := "sequential"
+	if h.Concurrent {
+		mode = "concurrent"
+	}
+
+	r.Count("histories_"+mode, 1)
+	r.Count("histories_order_"+h.Style, 1)
+
+	if rep := h.Repeated(); len(rep) < 1 {
+		r.Count("histories_every_setter_once", 1)
+	} else {
+		for _, k := range rep {
+			r.Count("histories_repeated_"+k, 1)
+		}
+	}
+
+	if h.MapCalls > 1 {
+		// observation only (which call is kept is not judged): under
+		// concurrency a call other than the first launched one being kept
+		// shows that the calls did overlap / overtake each other
+		r.Count("repeated_blockmap_kept_"+mode+"_"+kept, 1)
+	}
+
+	if h.StateRepeats > 0 {
+		r.Count("histories_same_state_again", 1)
+	}
+
+	if h.StateVariants > 0 {
+		r.Count("histories_other_state_of_same_key_and_height", 1)
+	}
+
+	if h.OpRepeats > 0 {
+		r.Count("histories_same_operation_again", 1)
+	}
+
+	r.Count("setter_calls_SetBlockMap", h.MapCalls)
+	r.Count("setter_calls_SetStates", h.StateCalls)
+	r.Count("setter_calls_SetOperations", h.OpCalls)
+	r.Count("setter_calls_SetSuffrageProof", h.ProofCalls)
+	r.SetAdd("history_shapes", h.Fingerprint())
 }
 
 func runChain(r *vlib.Run, env *dbrig.Env, idx int, onFile bool) {
@@ -137,6 +237,8 @@ func runChain(r *vlib.Run, env *dbrig.Env, idx int, onFile bool) {
 	s := &run{
 		r: r, env: env, idx: idx, st: st, gen: dbrig.NewGen(env, rng, fmt.Sprintf("c%d", idx)),
 		chain: &dbrig.Chain{}, pool: dbrig.NewPoolContent(rng),
+		othernode: base.RandomLocalNode(), hist: map[base.Height]*heightInfo{},
+		lasthist: "none", fullperm: r.Thorough(),
 	}
 
 	if onFile {
@@ -164,14 +266,48 @@ func runChain(r *vlib.Run, env *dbrig.Env, idx int, onFile bool) {
 			}
 		}
 
-		b := s.gen.Next(s.chain, dbrig.RandomOpt(rng, maxStates, sufEvery))
-		s.log("commit h=%d states=%d ops=%d suffrage=%v policy=%v", b.Height, len(b.States), len(b.Ops), b.Proof != nil, b.Policy != nil)
+		// a rival write database of the same height which is never merged:
+		// written and abandoned, or cancelled
+		if p := rng.Intn(100); p < 12 {
+			rival := s.gen.Next(s.chain, dbrig.RandomOpt(rng, maxStates, sufEvery))
 
-		if err := st.Commit(b); err != nil {
+			bw, err := st.Write(rival)
+			if err != nil {
+				r.Violation("rival-write:error", err.Error(), witness{Chain: idx, Script: s.script})
+
+				return
+			}
+
+			how := "abandoned"
+
+			if p < 6 {
+				how = "cancelled"
+
+				if err := bw.Cancel(); err != nil {
+					r.Violation("rival-cancel:error", err.Error(), witness{Chain: idx, Script: s.script})
+
+					return
+				}
+			}
+
+			s.log("rival write h=%d states=%d ops=%d suffrage=%v: written, %s", rival.Height, len(rival.States), len(rival.Ops), rival.Proof != nil, how)
+			r.Count("rival_block_writes_"+how, 1)
+		}
+
+		b := s.gen.Next(s.chain, dbrig.RandomOpt(rng, maxStates, sufEvery))
+		h := s.planHistory(rng, b)
+		s.log("commit h=%d states=%d ops=%d suffrage=%v policy=%v: %s", b.Height, len(b.States), len(b.Ops), b.Proof != nil, b.Policy != nil, h)
+
+		kept, err := s.commitWithHistory(b, h)
+		if err != nil {
 			r.Violation("commit:error", err.Error(), witness{Chain: idx, Script: s.script})
 
 			return
 		}
+
+		s.remember(b, h)
+		s.lasthist = h.Fingerprint()
+		countHistory(r, h, kept)
 
 		s.chain.Append(b)
 		r.Count("blocks_committed", 1)
@@ -228,6 +364,8 @@ func runChain(r *vlib.Run, env *dbrig.Env, idx int, onFile bool) {
 
 			if removed {
 				s.chain.Truncate(h)
+				s.forget(h)
+				s.lasthist = "removed"
 			}
 
 			if !s.reopenCheck("remove-blocks") {
@@ -245,7 +383,9 @@ func TestC20(t *testing.T) {
 	r := vlib.Start(t, "C20", vlib.LevelFault)
 	defer r.Finish()
 
-	r.SetRule("case = one quiescent point of a generated script (empty store, after every block commit, after every merge into the permanent store, after block removal): the full read set (every object read and every *Bytes tuple of the database over all keys / hashes / heights of the scenario, and every pool read over the inserted operations, proposals, ballots, expel operations) taken immediately before closing the storage and immediately after reopening it, compared field by field and byte for byte; distinct = (step kind, temps, blocks in permanent store, whether a suffrage proof is in the permanent store, pool size)")
+	r.SetRule("case = one quiescent point of a generated script (empty store, after every block commit, after every merge into the permanent store, after block removal): the full read set taken immediately before closing the storage and immediately after reopening it, compared field by field and byte for byte. Read set = every object read and every *Bytes tuple of the Center over all keys / hashes / heights of the scenario, signer+signature of every block map object answered, the same accessors of the permanent database asked directly (perm.*: Last* accessors, block maps and suffrage proofs of every height, suffrage / policy state; thorough tier every key and hash), and every pool read over the inserted operations, proposals, ballots, expel operations. " +
+		"Every block is written through a generated write history of its BlockWriteDatabase: 25% every setter once in the importer's order; else SetBlockMap called 1-3 times (the same manifest signed again by the local node or by another node), SetStates in 1-4 parts plus optionally states handed over again (identical, or another valid state of the same key and height), SetOperations in 1-3 parts plus optionally an operation again, SetSuffrageProof once or twice (another proof of the same suffrage state); calls ordered as the importer does (block map, data, proof, Write), as the block writer does (data, Write, block map, proof) or shuffled with only the data calls before Write; 40% of these with the calls of each phase released together from one goroutine each; 12% of the blocks preceded by a rival write database of the same height which is written and abandoned or cancelled. Which of two calls the database keeps is not judged, only that the running and the reopened instance agree. " +
+		"distinct = (step kind, temps, blocks in permanent store, whether a suffrage proof is in the permanent store, pool size, shape of the newest block's write history: order style, sequential/concurrent, number of calls of every setter, repeats/variants)")
 	r.Assume("close = leveldb Storage.Close with every in-memory object dropped; reopen = new Storage on the same goleveldb storage (memory; thorough tier also file), new LeveldbPermanent, Center and TempPool as launch.LoadDatabase builds them")
 	r.Exhaustive(true) // every quiescent point of every script is a reopen point
 
@@ -263,6 +403,10 @@ func TestC20(t *testing.T) {
 
 	if r.Counter("reopen_points") < 1 {
 		r.Inconclusive("no reopen point was reached")
+	}
+
+	if r.Counter("reopen_points_with_repeated_setters_in_store") < 1 || r.Counter("histories_concurrent") < 1 {
+		r.Inconclusive("no reopen point with a block written by repeated / concurrent setter calls was reached")
 	}
 }
 
